@@ -19,6 +19,13 @@
      reported (the hypothesis would be false of the code).  Introductions of Not (which the theorems do NOT assume
      away, see C09_LA_quantifiers_remover_negative_refuted) are only counted.
 
+  3. FIXED PROBES of the recorded defect "a compiler introduces NEGATIVE_CONDITIONS through the Simplifier"
+     (Implies(a, false) / Iff(a, false) |-> Not(a)): QuantifiersRemover on Implies(x, Exists v:T. p(v)) over an object-less
+     type, StateInvariantsRemover and BoundedTypesRemover on a precondition Iff(x, false).  The REAL compiler is run,
+     every feature of compiled.kind outside resulting_problem_kind(problem.kind) is a property failure tagged like the
+     findings of harness/props/c09.py (+ "simplifier-introduces-not-from-constant-operand"): matched by the open
+     findings C09-<compiler>-undeclared-NEGATIVE_CONDITIONS-via-simplifier.  A probe that stops reproducing is drift.
+
 `python harness/c09_la.py --repro-qr-neg` runs the reproduction of the finding
 "QuantifiersRemover introduces NEGATIVE_CONDITIONS that resulting_problem_kind does not declare" against $UP_REPO;
 `--repro-inv-neg` the same root cause (the Simplifier builds Not from Iff / Implies with a constant) through
@@ -257,7 +264,9 @@ def run(ctx):
     for e, s, new in smp_bad[:5]:
         ctx.fail("corr", "FNode.simplify introduced %s: hypothesis smp_ok of Props/C09_la.v is false of the code" % new,
                  ["c09-la", "smp-ok"] + ["operator:" + n for n in new], {"expression": e, "simplified": s, "new": new}, False)
-    return {"evaluations": len(cases) + smp_checked, "kind_tie_cases": len(cases), "kind_tie_mismatches": mism,
+    probes = report_probes(ctx)
+    return {"evaluations": len(cases) + smp_checked + len(probes), "fixed_probes": probes,
+            "kind_tie_cases": len(cases), "kind_tie_mismatches": mism,
             "from_generated": sum(1 for m in meta if m[0].startswith("generated")),
             "from_real_compiler_outputs": sum(1 for m in meta if m[0].startswith("output")),
             "real_compile_errors_skipped": compile_errors, "outside_fragment": skipped,
@@ -268,69 +277,116 @@ def run(ctx):
 
 
 # ---------------------------------------------------------------------------------------------------------------
-def repro_qr_neg():
-    """QuantifiersRemover: the effect condition Implies(x, Exists v:T. p(v)) over a user type T WITHOUT objects expands to
-    Implies(x, false), which FNode.simplify() rewrites to Not(x): the compiled problem has NEGATIVE_CONDITIONS, the input
-    kind and resulting_problem_kind(input kind) do not."""
+NOT_TAG = "simplifier-introduces-not-from-constant-operand"
+
+
+def qr_neg_problem():
+    """effect condition Implies(x, Exists v:T. p(v)) over a user type T WITHOUT objects: expands to Implies(x, false), which
+    FNode.simplify() rewrites to Not(x)"""
     from unified_planning.shortcuts import (UserType, Fluent, BoolType, Problem, Variable, InstantaneousAction, Implies,
                                             Exists)
-    from unified_planning.engines.compilers import QuantifiersRemover
-    from unified_planning.engines import CompilationKind
     T = UserType("T")
-    x = Fluent("x")
-    y = Fluent("y")
-    p = Fluent("p", BoolType(), o=T)
+    x, y = Fluent("x"), Fluent("y")
+    q = Fluent("p", BoolType(), o=T)
     pr = Problem("qr_neg")
-    for f in (x, y, p):
+    for f in (x, y, q):
         pr.add_fluent(f, default_initial_value=False)
     v = Variable("v", T)
     a = InstantaneousAction("a")
-    a.add_effect(y, True, Implies(x, Exists(p(v), v)))
+    a.add_effect(y, True, Implies(x, Exists(q(v), v)))
     pr.add_action(a)
     pr.add_goal(y)
+    return pr
+
+
+def inv_neg_problem():
+    """precondition Iff(x, false) (no NEGATIVE_CONDITIONS in Problem.kind); a bounded fluent and a state invariant so that
+    both StateInvariantsRemover and BoundedTypesRemover have something to remove; both re-simplify every precondition
+    together with the new condition, and Iff(x, false) becomes Not(x)"""
+    from unified_planning.shortcuts import (Fluent, IntType, Problem, InstantaneousAction, Iff, FALSE, LE)
+    x, y, n = Fluent("x"), Fluent("y"), Fluent("n", IntType(0, 5))
+    pr = Problem("inv_neg")
+    pr.add_fluent(x, default_initial_value=False)
+    pr.add_fluent(y, default_initial_value=False)
+    pr.add_fluent(n, default_initial_value=0)
+    a = InstantaneousAction("a")
+    a.add_precondition(Iff(x, FALSE()))
+    a.add_effect(y, True)
+    pr.add_action(a)
+    pr.add_goal(y)
+    pr.add_state_invariant(LE(n, 5))
+    return pr
+
+
+def fixed_probes():
+    """(factory name of the compiler, compiler, compilation kind, problem)"""
+    from unified_planning.engines.compilers import QuantifiersRemover, StateInvariantsRemover, BoundedTypesRemover
+    from unified_planning.engines import CompilationKind as CK
+    return [("up_quantifiers_remover", QuantifiersRemover(), CK.QUANTIFIERS_REMOVING, qr_neg_problem()),
+            ("up_state_invariants_remover", StateInvariantsRemover(), CK.STATE_INVARIANTS_REMOVING, inv_neg_problem()),
+            ("up_bounded_types_remover", BoundedTypesRemover(), CK.BOUNDED_TYPES_REMOVING, inv_neg_problem())]
+
+
+def run_probe(name, comp, ck, pr):
+    """-> dict(kind_in, declared, compiled, undeclared, has_not); raises when the compiler does not support / compile it"""
+    from unified_planning.model.operators import OperatorKind as OK
     k = pr.kind
-    qr = QuantifiersRemover()
-    assert qr.supports(k)
-    declared = qr.resulting_problem_kind(k, CompilationKind.QUANTIFIERS_REMOVING)
-    res = qr.compile(pr, CompilationKind.QUANTIFIERS_REMOVING)
-    ck = res.problem.kind
-    print("input kind    :", sorted(k.features))
-    print("declared      :", sorted(declared.features))
-    print("compiled kind :", sorted(ck.features))
-    print("compiled action:", res.problem.actions[0])
-    extra = sorted(ck.features - declared.features)
-    print("UNDECLARED:", extra)
-    print("compiled <= declared:", ck <= declared)
-    return extra
+    if not comp.supports(k):
+        raise RuntimeError("%s does not support the probe problem's kind %s" % (name, sorted(k.features)))
+    declared = comp.resulting_problem_kind(k, ck)
+    res = comp.compile(pr, ck)
+    ckind = res.problem.kind
+    has_not = any(OK.NOT in ops_of(c) for c in conditions(res.problem))
+    return {"compiler": name, "problem": pr.name, "kind_in": sorted(k.features), "kind_declared": sorted(declared.features),
+            "kind_compiled": sorted(ckind.features), "undeclared": sorted(ckind.features - declared.features),
+            "compiled_has_not": has_not, "compiled_problem": str(res.problem)[:1500]}
+
+
+def report_probes(ctx):
+    """the recorded defect "a compiler introduces NEGATIVE_CONDITIONS through the Simplifier" is EXERCISED on every run:
+    each undeclared feature is a property failure with the tag scheme of harness/props/c09.py (c09, compiler:<factory name>,
+    undeclared:<FEATURE>) + NOT_TAG; a probe that no longer reproduces is reported as drift (property_fails=False)"""
+    out = []
+    for name, comp, ck, pr in fixed_probes():
+        try:
+            r = run_probe(name, comp, ck, pr)
+        except Exception as ex:
+            ctx.fail("corr", "fixed probe %s on %s could not be run: %r (the probe no longer fits the code)" % (name, pr.name, ex),
+                     ["c09-la", "probe-broken", "compiler:" + name], {"exception": repr(ex)}, False)
+            out.append({"compiler": name, "error": repr(ex)})
+            continue
+        out.append({k: r[k] for k in ("compiler", "problem", "undeclared", "compiled_has_not")})
+        for f in r["undeclared"]:
+            tags = ["c09", "compiler:" + name, "undeclared:" + f, "fixed-probe"]
+            if f == "NEGATIVE_CONDITIONS" and r["compiled_has_not"]:
+                tags.append(NOT_TAG)
+            ctx.fail("oracle", "compiler %s on the fixed probe %s: the compiled problem has feature %s that "
+                     "resulting_problem_kind(kind(problem)) does not declare" % (name, pr.name, f), tags,
+                     dict(r, undeclared_feature=f, theorem_or_corr="oracle:C09:kind(compiled)<=declared"), True)
+        if "NEGATIVE_CONDITIONS" not in r["undeclared"]:
+            ctx.fail("corr", "fixed probe %s on %s no longer shows the recorded defect (NEGATIVE_CONDITIONS introduced by the "
+                     "Simplifier and not declared): the finding C09-%s-undeclared-NEGATIVE_CONDITIONS-via-simplifier and the "
+                     "refuted theorem / hypothesis keeps_op smp op_NOT of Props/C09_la.v need review" % (name, pr.name, name),
+                     ["c09-la", "probe-no-longer-reproduces", "compiler:" + name], r, False)
+    return out
+
+
+def repro_qr_neg():
+    name, comp, ck, pr = fixed_probes()[0]
+    r = run_probe(name, comp, ck, pr)
+    for k in ("kind_in", "kind_declared", "kind_compiled", "undeclared"):
+        print("%-14s: %s" % (k, r[k]))
+    print(r["compiled_problem"])
+    return r["undeclared"]
 
 
 def repro_inv_neg():
-    """StateInvariantsRemover / BoundedTypesRemover re-simplify every precondition together with the new condition: a
-    precondition Iff(x, false) (no NEGATIVE_CONDITIONS in Problem.kind) becomes Not(x)."""
-    from unified_planning.shortcuts import (Fluent, IntType, Problem, InstantaneousAction, Iff, FALSE, LE)
-    from unified_planning.engines.compilers import StateInvariantsRemover, BoundedTypesRemover
-    from unified_planning.engines import CompilationKind as CK
     bad = []
-    for comp, ck in ((StateInvariantsRemover(), CK.STATE_INVARIANTS_REMOVING), (BoundedTypesRemover(), CK.BOUNDED_TYPES_REMOVING)):
-        x, y, n = Fluent("x"), Fluent("y"), Fluent("n", IntType(0, 5))
-        pr = Problem("inv_neg")
-        pr.add_fluent(x, default_initial_value=False)
-        pr.add_fluent(y, default_initial_value=False)
-        pr.add_fluent(n, default_initial_value=0)
-        a = InstantaneousAction("a")
-        a.add_precondition(Iff(x, FALSE()))
-        a.add_effect(y, True)
-        pr.add_action(a)
-        pr.add_goal(y)
-        pr.add_state_invariant(LE(n, 5))
-        k = pr.kind
-        assert comp.supports(k)
-        declared = comp.resulting_problem_kind(k, ck)
-        res = comp.compile(pr, ck)
-        extra = sorted(res.problem.kind.features - declared.features)
-        print(type(comp).__name__, "input kind", sorted(k.features))
-        print("   compiled preconditions:", res.problem.actions[0].preconditions, " UNDECLARED:", extra)
-        bad += extra
+    for name, comp, ck, pr in fixed_probes()[1:]:
+        r = run_probe(name, comp, ck, pr)
+        print(name, "input kind", r["kind_in"])
+        print("   compiled kind:", r["kind_compiled"], " UNDECLARED:", r["undeclared"])
+        bad += r["undeclared"]
     return bad
 
 
